@@ -43,7 +43,11 @@ Definition run_harvest_flow (fl : flows) (st : sites) (name : string) (e : engin
 Fixpoint srun_flow (sa : sadd_flow) (sf : save_flow) (s : sst) (ops : list sop) : list val :=
   match ops with
   | [] => []
-  | o :: rest => let s' := match o with SAdd rows sync => sadd_flow_run sa sf s rows sync | _ => sstep s o end in
+  | o :: rest => let s' := match o with
+                           | SAdd rows sync => sadd_flow_run sa sf s rows sync
+                           | SAddFail rows => sadd_wfail_run sa sf s rows
+                           | _ => sstep s o
+                           end in
                  VL [vopt enc_table (s_mem s'); vopt enc_table (s_file s')] :: srun_flow sa sf s' rest
   end.
 Definition run_sampler_flow (sa : sadd_flow) (sf : save_flow) (ops : list sop) : val :=
